@@ -22,6 +22,24 @@ CHECKS = {
  "C03": dict(technique="TLC-validated relational traces: column-membership equality over permutations of the input records",
              text="For each sequence set the harness runs several record orders (all n! for tiny inputs with ties, structured and random permutations for generated inputs on both sides of the 100-sequence switch); RelateTrace requires the same set of columns as sets of (name, residue index).",
              note="permutations sampled except for tiny inputs; names distinct by construction", ref="DESIGN 5.C03"),
+ "C06": dict(technique="TLC trace validation of write/read round trips and conversions against the given alignment (RoundTripTrace; rows rebuilt by Weave!Render)",
+             text="For synthetic alignments (the generator's rows are the reference) and alignments produced by runs, every file kalign writes (3 formats) is read back and every read-back copy is converted into 3 formats and read back again; TLC requires row count, order, names, residues and gap positions to equal the reference (12 comparisons per alignment), including widths at multiples of 60, names up to 200 characters, and gap runs at the reader's 512-residue growth boundaries.",
+             note="sampled alignments; conversion = read + finalise + write (what kalign_msa_compare does internally); one known finding (gap-free alignments cannot be converted)", ref="DESIGN 5.C06"),
+ "C08": dict(technique="TLC-validated relational traces (Relate!NoDash) over identical-sequence inputs",
+             text="k copies of one string for many k (up to 500), lengths (1..5000 in thorough), compositions (uniform, single letter incl. all-N/all-X/all-B/all-Z/all-U, IUPAC mixtures, mixed case), admissible types and thread counts; TLC requires a successful run without any gap character.",
+             note="sampled grid; the scoring-model certificate (DiagonalUnique) is part of C07's Scoring module", ref="DESIGN 5.C08"),
+ "C11": dict(technique="TLC model checking of the blocked bit-vector algorithm (generic word width) against the column DP + TLC-computed edit-distance oracle on the real kernels' return values",
+             text="Myers.tla states semi-global edit distance (fold DP) and the blocked bit-parallel algorithm generically in the word width; TLC proves them equal for every text/pattern over small alphabets at widths 2-4 incl. the cap (twin with wrong padding must fail). MyersTrace compares bpm_block, bpm and bpm_256 of the real code, builds with and without AVX2, with the TLC-computed distance on exhaustive small pairs and seeded pairs around every 64-symbol boundary and the 1024 cap.",
+             note="word width 64 itself is validated by return values, not by state refinement; long inputs sampled", ref="DESIGN 5.C11"),
+ "C12": dict(technique="TLC-validated relational traces (Relate!DupRows) with the containment premise evaluated by the specification",
+             text="Inputs of 2..99 sequences with planted duplicates; the spec evaluates the premise (no other sequence contains or is contained in a duplicated one on the guide-tree alphabet of Alphabet.tla) on the object as read and requires equal rows for equal sequences; cases failing the premise are skipped and counted.",
+             note="sampled inputs; premise uses substring containment on class codes", ref="DESIGN 5.C12"),
+ "C15": dict(technique="TLC evaluation of Writer!WellFormed on tokenised layouts of every written file (WriterTrace)",
+             text="Writer.tla states the layout of FASTA, Clustal and MSF files (wrapping at 60, block count and content, every sequence in every block, MSF declared length, per-row and total GCG checksums, molecule type); every file written from synthetic and run-produced alignments (widths incl. multiples of 60, names to 200 characters) is tokenised into fields and checked by TLC against the rows, names and biotype of the object it was written from.",
+             note="tokenizer trusted to split fields only; date and file name in the MSF header are not checked", ref="DESIGN 5.C15"),
+ "C17": dict(technique="TLC lemmas over Compare.tla + TLC-computed exact fraction against kalign_msa_compare's result (CompareTrace)",
+             text="Compare.tla defines the score as an exact fraction; TLC checks its lemmas (range, 100 on equivalent alignments, invariance under all-gap columns) over all pairs of small alignments; CompareTrace recomputes the fraction for the two alignments handed to every real call (enumerated tiny pairs from files in 3 formats, run-vs-run, run-vs-itself, permuted/padded/perturbed copies, mixed case) and requires agreement within 1e-3, 100 on equivalent alignments, and the range [0,100].",
+             note="float score compared in 1e-4 units with 1e-3 tolerance; sampled except tiny pairs", ref="DESIGN 5.C17"),
 }
 NOT_YET = {}
 ALL = ["C%02d" % i for i in range(1, 18)]
